@@ -29,6 +29,7 @@ def PhaseInv (i : Nat) (lvl : Int) (c : CM) : Phase → Prop
   | .reqLine s => Link i c s.rb s.buf.size ∧ RLInvX (RLFlags.ofLevel lvl) s
   | .headers s _ => Link i c s.rb s.buf.size ∧ HSP.Inv s ∧ HSP.Inv2 s
   | .headersDone h rq => Link i c h.rb h.buf.size ∧ RqOk h.rb rq
+  | .cont100 b => Link i c b.rb b.buf.size ∧ RqOk b.rb b.rq
   | .body b => Link i c b.rb b.buf.size ∧ RqOk b.rb b.rq
   | .footers s _ => Link i c s.rb s.buf.size ∧ HSP.Inv s
   | .reqDone buf rb _ => Link i c rb buf.size
@@ -43,6 +44,7 @@ def Safe (i : Nat) (x : CR) : Prop := PhaseInv i x.lvl x.cm x.phase
 theorem safe_cminv {i : Nat} {x : CR} (h : Safe i x) : CMInv x.cm := by
   unfold Safe at h
   cases hp : x.phase <;> rw [hp] at h <;> simp only [PhaseInv] at h
+  · exact h.1.recv.inv
   · exact h.1.recv.inv
   · exact h.1.recv.inv
   · exact h.1.recv.inv
@@ -298,13 +300,17 @@ theorem blres_ok (w : List UInt8) (s : BL) (hs : s.head ≤ w.length) :
     (∀ n, BLRes.ok s ≠ .overrun n) ∧ (∀ s', BLRes.ok s = .ok s' → s'.head ≤ w.length) :=
   ⟨fun n h => (by cases h), fun s' h => (by simp only [BLRes.ok.injEq] at h; subst h; exact hs)⟩
 
+theorem blres_closed (w : List UInt8) :
+    (∀ n, BLRes.closed ≠ .overrun n) ∧ (∀ s', BLRes.closed = .ok s' → s'.head ≤ w.length) :=
+  ⟨fun n h => (by cases h), fun s' h => (by cases h)⟩
+
 theorem blres_err (w : List UInt8) (st : Nat) :
     (∀ n, BLRes.err st ≠ .overrun n) ∧ (∀ s', BLRes.err st = .ok s' → s'.head ≤ w.length) :=
   ⟨fun n h => (by cases h), fun s' h => (by cases h)⟩
 
 /-- the body loop never claims more bytes than the window holds: every decision of the chunk decoder
     consumes at most the available bytes (C03: `chunkAct_term`, `chunkAct_line`, `chunkAct_data`) -/
-theorem bodyLoop_ok (lvl : Int) (take : Nat → Nat → Nat) (chunked : Bool) (w : List UInt8) :
+theorem bodyLoop_ok (lvl : Int) (take : Nat → Nat → Option Nat) (chunked : Bool) (w : List UInt8) :
     ∀ (f : Nat) (s : BL), s.head ≤ w.length →
       (∀ n, bodyLoop lvl take chunked w f s ≠ .overrun n) ∧
       (∀ s', bodyLoop lvl take chunked w f s = .ok s' → s'.head ≤ w.length) := by
@@ -342,16 +348,24 @@ theorem bodyLoop_ok (lvl : Int) (take : Nat → Nat → Nat) (chunked : Bool) (w
             rw [(Mhd.Framing.chunkAct_data lvl s.cur s.off _ n hact).2.2.2]; exact Nat.min_le_right _ _
           dsimp only
           rw [if_pos hb]
-          have ht : min n (take s.calls n) ≤ n := Nat.min_le_left _ _
-          split
-          · exact blres_ok w _ (by show s.head + min n (take s.calls n) ≤ w.length; omega)
-          · exact ih _ (by show s.head + min n (take s.calls n) ≤ w.length; omega)
+          cases htk : take s.calls n with
+          | none => exact blres_closed w
+          | some tk =>
+            dsimp only
+            have ht : min n tk ≤ n := Nat.min_le_left _ _
+            split
+            · exact blres_ok w _ (by show s.head + min n tk ≤ w.length; omega)
+            · exact ih _ (by show s.head + min n tk ≤ w.length; omega)
       · -- identity
-        have : min (min s.remaining (w.drop s.head).length) (take s.calls (min s.remaining (w.drop s.head).length))
-            ≤ (w.drop s.head).length := Nat.le_trans (Nat.min_le_left _ _) (Nat.min_le_right _ _)
-        exact blres_ok w _ (by
-          show s.head + min (min s.remaining (w.drop s.head).length) _ ≤ w.length
-          omega)
+        cases htk : take s.calls (min s.remaining (w.drop s.head).length) with
+        | none => exact blres_closed w
+        | some tk =>
+          dsimp only
+          have : min (min s.remaining (w.drop s.head).length) tk ≤ (w.drop s.head).length :=
+            Nat.le_trans (Nat.min_le_left _ _) (Nat.min_le_right _ _)
+          exact blres_ok w _ (by
+            show s.head + min (min s.remaining (w.drop s.head).length) tk ≤ w.length
+            omega)
 
 theorem processBody_safe (i : Nat) (cfg : Cfg) (x : CR) (b : Body) (hl : Link i x.cm b.rb b.buf.size)
     (hq : RqOk b.rb b.rq) : Safe i (processBody cfg x b) ∧ (processBody cfg x b).lvl = x.lvl := by
@@ -359,13 +373,14 @@ theorem processBody_safe (i : Nat) (cfg : Cfg) (x : CR) (b : Body) (hl : Link i 
   have hsz := hl.sz
   have hwl : ((b.buf.extract b.rb b.buf.size).toList).length = x.cm.rbOff := by
     simp only [Array.length_toList, Array.size_extract]; omega
-  have bl := bodyLoop_ok x.lvl cfg.take b.chunked (b.buf.extract b.rb b.buf.size).toList
+  have bl := bodyLoop_ok x.lvl (fun k n => if cfg.refuse k then none else some (cfg.take k n)) b.chunked (b.buf.extract b.rb b.buf.size).toList
     ((b.buf.extract b.rb b.buf.size).toList.length + 1) ⟨b.cur, b.off, b.remaining, b.calls, b.processed, 0⟩ (Nat.zero_le _)
   dsimp only
-  cases hr : bodyLoop x.lvl cfg.take b.chunked (b.buf.extract b.rb b.buf.size).toList
+  cases hr : bodyLoop x.lvl (fun k n => if cfg.refuse k then none else some (cfg.take k n)) b.chunked (b.buf.extract b.rb b.buf.size).toList
       ((b.buf.extract b.rb b.buf.size).toList.length + 1) ⟨b.cur, b.off, b.remaining, b.calls, b.processed, 0⟩ with
   | overrun n => exact absurd hr (bl.1 n)
   | err st => exact ⟨(errorOut_safe i x _ _ hl.recv).1, (errorOut_safe i x _ _ hl.recv).2.1⟩
+  | closed => exact ⟨hl.recv.inv, rfl⟩
   | ok s =>
     have hh := bl.2 s hr
     rw [hwl] at hh
@@ -406,26 +421,51 @@ theorem idleBody_safe (i : Nat) (cfg : Cfg) (x : CR) (b : Body) (hl : Link i x.c
   | reqLine _ => exact h1
   | headers _ _ => exact h1
   | headersDone _ _ => exact h1
+  | cont100 _ => exact h1
   | footers _ _ => exact h1
   | reqDone _ _ _ => exact h1
   | error _ => exact h1
   | fault _ => exact h1
   | refused _ => exact h1
 
+theorem startBody_safe (i : Nat) (cfg : Cfg) (x : CR) (h : Headers) (rq : Rq) (ch : Bool) (n : Nat)
+    (hl : Link i x.cm h.rb h.buf.size) (hq : RqOk h.rb rq) :
+    Safe i (startBody cfg x h rq ch n) ∧ (startBody cfg x h rq ch n).lvl = x.lvl := by
+  unfold startBody
+  split
+  · exact ⟨hl, rfl⟩
+  · dsimp only
+    split
+    · exact ⟨⟨hl, hq⟩, rfl⟩
+    · exact ⟨⟨hl, hq⟩, rfl⟩
+
 theorem afterHeaders_safe (i : Nat) (cfg : Cfg) (x : CR) (h : Headers) (rq : Rq) (hl : Link i x.cm h.rb h.buf.size)
     (hq : RqOk h.rb rq) (hp : x.phase = .headersDone h rq) :
     Safe i (afterHeaders cfg x h rq) ∧ (afterHeaders cfg x h rq).lvl = x.lvl := by
   unfold afterHeaders
-  cases cfg.frame h.buf rq with
-  | stop => exact ⟨by unfold Safe; rw [hp]; exact ⟨hl, hq⟩, rfl⟩
+  have hx : Safe i x := by unfold Safe; rw [hp]; exact ⟨hl, hq⟩
+  have hc : Safe i { x with phase := .error .closed } := hl.recv.inv
+  cases hf : cfg.frame h.buf rq with
+  | stop => exact ⟨hx, rfl⟩
   | reject code => exact ⟨(errorOut_safe i x _ _ hl.recv).1, (errorOut_safe i x _ _ hl.recv).2.1⟩
-  | none => exact ⟨hl, rfl⟩
+  | none =>
+    dsimp only
+    cases cfg.first h.buf rq with
+    | no => exact ⟨hc, rfl⟩
+    | reply => exact ⟨hc, rfl⟩
+    | cont => exact startBody_safe i cfg x h rq false 0 hl hq
   | len n =>
     dsimp only
-    split
-    · exact ⟨hl, rfl⟩
-    · exact ⟨⟨hl, hq⟩, rfl⟩
-  | chunked => exact ⟨⟨hl, hq⟩, rfl⟩
+    cases cfg.first h.buf rq with
+    | no => exact ⟨hc, rfl⟩
+    | reply => exact ⟨hc, rfl⟩
+    | cont => exact startBody_safe i cfg x h rq false n hl hq
+  | chunked =>
+    dsimp only
+    cases cfg.first h.buf rq with
+    | no => exact ⟨hc, rfl⟩
+    | reply => exact ⟨hc, rfl⟩
+    | cont => exact startBody_safe i cfg x h rq true 1 hl hq
 
 theorem finishRequest_safe (i : Nat) (x : CR) (buf : Bytes) (rb : Nat) (hl : Link i x.cm rb buf.size) :
     Safe i (finishRequest x buf rb).1 ∧ (finishRequest x buf rb).1.lvl = x.lvl := by
@@ -444,6 +484,7 @@ theorem stLine_safe (i : Nat) (x : CR) (h : Safe i x) : Safe i (stLine x) ∧ (s
   have h' := h; unfold Safe at h'
   cases hp : x.phase with
   | reqLine s => rw [hp] at h'; exact idleReqLine_safe i x s h'.1 h'.2
+  | cont100 b => rw [hp] at h'; exact ⟨h', rfl⟩
   | _ => exact ⟨h, rfl⟩
 
 theorem stHeaders_safe (i : Nat) (x : CR) (h : Safe i x) : Safe i (stHeaders x) ∧ (stHeaders x).lvl = x.lvl := by
@@ -522,6 +563,7 @@ theorem reading_link {i : Nat} {x : CR} (h : Safe i x) (hr : x.reading = true) :
   · cases hr
   · exact ⟨_, _, h.1⟩
   · exact ⟨_, _, h.1⟩
+  · exact ⟨_, _, h.1⟩
   all_goals cases hr
 
 theorem wantsRead_reading {x : CR} (h : x.wantsRead = true) : x.reading = true := by
@@ -536,6 +578,7 @@ theorem safe_setCm {i : Nat} {x : CR} (h : Safe i x) (hr : x.reading = true) (c'
   · exact ⟨hc _ _ h.1, h.2⟩
   · exact ⟨hc _ _ h.1, h.2⟩
   · cases hr
+  · exact ⟨hc _ _ h.1, h.2⟩
   · exact ⟨hc _ _ h.1, h.2⟩
   · exact ⟨hc _ _ h.1, h.2⟩
   all_goals cases hr
@@ -668,6 +711,12 @@ theorem recvBytes_safe (i : Nat) (x : CR) (e : List UInt8) (h : Safe i x) (hr : 
     have := key _ _ h.1
     show Link i _ b.rb (b.buf ++ e.toArray).size
     rw [Array.size_append]; simpa using this
+  | cont100 b =>
+    rw [hp] at h
+    refine ⟨?_, h.2⟩
+    have := key _ _ h.1
+    show Link i _ b.rb (b.buf ++ e.toArray).size
+    rw [Array.size_append]; simpa using this
   | footers s n =>
     rw [hp] at h
     refine ⟨?_, h.2.ext _⟩
@@ -757,6 +806,7 @@ def Phase.view? : Phase → Option (Bytes × Nat)
   | .reqLine s => some (s.buf, s.rb)
   | .headers s _ => some (s.buf, s.rb)
   | .headersDone h _ => some (h.buf, h.rb)
+  | .cont100 b => some (b.buf, b.rb)
   | .body b => some (b.buf, b.rb)
   | .footers s _ => some (s.buf, s.rb)
   | .reqDone buf rb _ => some (buf, rb)
@@ -772,6 +822,7 @@ theorem safe_view {i : Nat} {x : CR} (h : Safe i x) (buf : Bytes) (r : Nat) (hv 
     fun hl => ⟨hl.recv.rb, hl.recv.base, hl.sz, hl.recv.off_le, hl.recv.inside.1, hl.recv.inside.2⟩
   unfold Safe at h
   cases hp : x.phase <;> rw [hp] at h hv <;> simp only [Phase.view?, Option.some.injEq, Prod.mk.injEq] at hv
+  · obtain ⟨rfl, rfl⟩ := hv; exact key h.1
   · obtain ⟨rfl, rfl⟩ := hv; exact key h.1
   · obtain ⟨rfl, rfl⟩ := hv; exact key h.1
   · obtain ⟨rfl, rfl⟩ := hv; exact key h.1
